@@ -258,6 +258,23 @@ def run(rep, tier, seed, model_ok=True, effort=1):
             if x[7] is False:
                 rep.violation("the pattern derived for the config file's own current_version line does not match that line (%s[%s,%s])" % (x[0], x[1], x[2]), input=inp, **{"class": "self-pattern-no-match"})
         rep.sample(dict(version_pattern=c["version_pattern"], commit=c["commit"], tag=c["tag"], push=c["push"], files=len(c["files"])))
+    # a glob entry that covers several files -- in the TOML formats also the config file itself, which carries its own current_version entry:
+    # every format reads the entry to the same (file, pattern) pairs for the other files, and `update` rewrites them alike
+    outcomes = {}
+    for fmt_ in ("setup.cfg", "bumpver.toml", "pyproject.toml", ".bumpver.toml"):
+        prefix_ = '[project]\npkgver = "1.2.3"\n\n' if fmt_.endswith(".toml") else "[metadata]\nname = demo\n\n"
+        prj = project.TempProject("MAJOR.MINOR.PATCH", "1.2.3", files={"*.toml": ['pkgver = "{version}"']}, fmt=fmt_, cfg_prefix=prefix_,
+                                  contents={"Cargo.toml": '[package]\npkgver = "1.2.3"\n', "pixi.toml": '[workspace]\npkgver = "1.2.3"\n'})
+        with prj:
+            code_, out_, logs_, exc_ = prj.run(impl, ["update", "--no-fetch", "--patch"])
+            snap_ = prj.snapshot()
+        outcomes[fmt_] = (code_, snap_.get("Cargo.toml"), snap_.get("pixi.toml"), logs_[-2:])
+        rep.case(("glob-over-config", fmt_), nontrivial=code_ == 0)
+    ref_ = outcomes["setup.cfg"]
+    for fmt_, oc_ in outcomes.items():
+        if oc_[:3] != ref_[:3] or oc_[0] != 0 or b"1.2.4" not in (oc_[1] or b""):
+            rep.violation("the glob entry *.toml is read differently from %s than from setup.cfg (exit %s vs %s; the other files rewritten: %s vs %s)" % (fmt_, oc_[0], ref_[0], b"1.2.4" in (oc_[1] or b""), b"1.2.4" in (ref_[1] or b"")),
+                          input=dict(entry={"*.toml": ['pkgver = "{version}"']}, files=["Cargo.toml", "pixi.toml"], config=fmt_, exit=oc_[0], logs=oc_[3]), **{"class": "dry-differs"})
     if model_ok:
         bad, errs = common.coq_eval("c18", HDR, "bool * list (list N * rawv) * option effcfg",
                                     "fun '(ini, raw, e) => match e with Some x => match (if ini then parse_config_ini raw else parse_config_toml raw) with Some y => eqb_effcfg x y | None => false end | None => true end",
